@@ -158,6 +158,7 @@ def _run_job(job):
                                 meta={k: v for k, v in o.meta.items() if k in ('exception', 'trig')},
                                 is_real=(o.goal is not None or o.status in ('undecided', 'error'))))
     out['files'] = sorted(E.I.files_used)
+    out['pyx'] = dict(E.I.pyx_reports)
     out['job_s'] = time.time() - _t0
     return out
 
@@ -219,10 +220,12 @@ def main():
     contracts_run = {}
     known_lines = []
     files_used = set(E.I.files_used)
+    pyx_reports = {}
     for r in results:
         errors.extend(r['errors'])
         known_lines.extend(r['known_lines'])
         files_used.update(r['files'])
+        pyx_reports.update(r.get('pyx') or {})
         key = (r['contract'], r['target'])
         contracts_run[key] = contracts_run.get(key, 0) + len(r['obls'])
         for d in r['obls']:
@@ -281,6 +284,20 @@ def main():
     n_dis = sum(1 for o in obls if o.status == 'valid')
     solver_time = sum(o.time for o in obls)
     files = {os.path.relpath(f, repo_path()): sha(f) for f in sorted(files_used) if f.startswith(repo_path())}
+    # Cython kernels: the verified text is extracted mechanically from the .pyx on every run; what the extraction dropped is
+    # reported and the unified diff against the .pyx is written next to the evidence
+    pyx_info = []
+    if pyx_reports:
+        os.makedirs(os.path.join(OUT, 'evidence', 'pyx'), exist_ok=True)
+    for rel, pr in sorted(pyx_reports.items()):
+        dname = os.path.join('evidence', 'pyx', rel.replace('/', '__') + '.diff')
+        open(os.path.join(OUT, dname), 'w').write(pr['diff'])
+        rp = pr['report']
+        pyx_info.append({'file': rel, 'diff': dname, 'rules': 'pyvc/pyx.py R1-R8',
+                         'dropped': {'cimport/ctypedef lines': len(rp['deleted']), 'typed headers rewritten': sum(1 for x in rp['rewritten'] if x['to'].startswith('def ')),
+                                     'typed local declarations': sum(len(x['names']) for x in rp['typed_locals']),
+                                     'extern blocks': [e['header'] for e in rp['extern']], 'sibling cimports': [x['module'] for x in rp['sibling_imports']],
+                                     'structs': [x['name'] for x in rp['structs']]}})
     level = info['level'] if not (undecided or errs or errors) else info['level']
     ev = {
         'property_id': prop, 'tier': tier, 'seed': seed, 'level': info['level'],
@@ -299,6 +316,7 @@ def main():
             'bounded': bounded,
             'known_findings': sorted({getattr(o, 'known') for o in obls if getattr(o, 'known', None)}),
             'source_sha256_16': files,
+            'pyx_extraction': pyx_info,
             'vacuity': {'contracts_with_feasible_path': len(contracts_run) - sum(1 for o in errs if o.name == 'cover')},
         },
         'assumptions': info.get('assumptions', []),
